@@ -558,6 +558,18 @@ def astype(ex, v: VRef, dtype: VDtype):
     return new_array(ex, c.shape, dtype, elem)
 
 
+@npfn("ndarray.fill")
+def _fill(ex, args, kwargs, fr):
+    """a.fill(v): IN-PLACE write of every element (same cell, same shape and dtype); returns None."""
+    v = args[1] if len(args) > 1 else kwargs["value"]
+    if not is_num(v):
+        raise Unsupported("ndarray.fill with a non-scalar")
+    c = cell(ex, args[0])
+    cv = cast_elem(ex, v, c.dtype)
+    write_elem(ex, args[0], lambda idx, cv=cv: cv)
+    return NONE
+
+
 @npfn("ndarray.astype")
 def _astype(ex, args, kwargs, fr):
     dt = dtype_of_lib(args[1] if len(args) > 1 else kwargs["dtype"])
